@@ -1244,6 +1244,11 @@ class IntermediateColumnarFormatWriter:
                             val = None
                         else:
                             val = variant.genotype.array()
+                            if val.shape[1] == 2:
+                                # Haploid calls have no phasing. cyvcf2 derives the
+                                # flag from a second allele that does not exist here,
+                                # i.e. from whatever follows in its buffer.
+                                val[:, -1] = 0
                         tcw.append("FORMAT/GT", val)
                     laa_val = None
                     for field in format_fields:
